@@ -686,8 +686,12 @@ func (e *fnEnc) execInstr(b *ssa.BasicBlock, ins ssa.Instruction, st *state) {
 		e.vals[v] = "WINDOW-POINTER-ESCAPED"
 
 	case *ssa.Call:
+		var preCall *state
+		if e.fc != nil && len(e.fc.AfterCall) > 0 {
+			preCall = st.clone()
+		}
 		e.call(st, v, v.Common(), v)
-		e.afterCall(st, v)
+		e.afterCall(st, v, preCall)
 	case *ssa.Go:
 		e.goStmt(st, v)
 	case *ssa.Defer:
@@ -1296,9 +1300,12 @@ func (e *fnEnc) makeSlice(st *state, v *ssa.MakeSlice) {
 // afterCall: intermediate assertions of the contract (`after-call <callee> [label] expr`): proved
 // right after every call whose callee name contains <callee>, with the function's source
 // variables in scope, and available from then on. They only structure the proof.
-func (e *fnEnc) afterCall(st *state, v *ssa.Call) {
+func (e *fnEnc) afterCall(st *state, v *ssa.Call, preCall *state) {
 	if e.fc == nil || len(e.fc.AfterCall) == 0 || st.reach == "false" {
 		return
+	}
+	if preCall == nil {
+		preCall = e.entry
 	}
 	key := e.calleeKey(v.Common())
 	if bi, isBuiltin := v.Common().Value.(*ssa.Builtin); isBuiltin {
@@ -1314,7 +1321,26 @@ func (e *fnEnc) afterCall(st *state, v *ssa.Call) {
 			continue
 		}
 		ac.Used = true
-		env := e.contractEnv(st, e.entry, nil)
+		// old(...) in an after-call clause: the state right before the call
+		env := e.contractEnv(st, preCall, nil)
+		// inside a loop body athead(x) is the value of the loop variable x at the head of the
+		// current iteration
+		var inner *loopInfo
+		for _, l := range e.loopList {
+			if l.blocks[v.Block()] && (inner == nil || len(l.blocks) < len(inner.blocks)) {
+				inner = l
+			}
+		}
+		if inner == nil {
+			// a block that leaves the loop (if ... { ...; break }): still inside the iteration
+			// of the innermost loop whose head dominates it
+			for _, l := range e.loopList {
+				if l.head.Dominates(v.Block()) && (inner == nil || inner.head.Dominates(l.head)) {
+					inner = l
+				}
+			}
+		}
+		env.iterLoop = inner
 		t := env.evalBool(ac.Expr)
 		o := e.oblige(st, "assert", fmt.Sprintf("after:%s[%s]", ac.Callee, labelOr(ac.Label, i)), v.Pos(), t)
 		o.Quantified = strings.Contains(t, "forall") || strings.Contains(t, "exists")
